@@ -274,7 +274,7 @@ CHECKS = {
                 "flight; adversary as requester with contact variants; recorded frame replayed), observing the incoming-request "
                 "events appended. non-trivial = always (every "
                 "run has the adversary on the path); distinct = distinct hash of the session trace.",
-        "required_probes": ["honest_handshake_completed", "responder_accepted", "requester_succeeded", "victim_signature_over_constant_obtained",
+        "required_probes": ["honest_handshake_completed", "responder_accepted", "requester_succeeded", "low_order_key_refused",
                             "honest_request_recorded", "mismatching_contact_refused"],
         "assumptions": COMMON_ASSUMPTIONS + ["the adversary is symbolic: it can do anything with bytes and keys it holds, it cannot forge Ed25519 signatures or open boxes without the key"],
     },
